@@ -330,6 +330,9 @@ def c12(tier):
             rel_job(run, "equiv-tiny-n%d" % n, "C12", eq, A, 1, L, [1, 1], [0, 1], "scale", bitexact=True, pow2=-120, rescaled=True)
             rel_job(run, "offset-big-n%d" % n, "C12", cf, A, 1, L, [1, 1], [1000000, 1], "affine")
         rel_job(run, "affine-n%d" % n, "C12", cf, A, 1, L, [3, 1], [5, 2], "affine")
+        # "bit-exactly for dyadic offsets where the view only ever forms differences of inputs": x and x + 2^20 are both exact
+        dif = [c for c in cf if c["k"] in ("HLNormalizer", "NoiseEliminationTechnology", "EhlersFisherTransform")] + [{"k": "EhlersFisherTransform", "n": n, "c": [E, E]}]
+        rel_job(run, "offset-dyadic-n%d" % n, "C12", dif, A, 1, L, [1, 1], [1048576, 1], "affine", bitexact=True, invonly=True)
         rel_job(run, "neg-n%d" % n, "C12", cf, A, 1, L, [-1, 1], [0, 1], "neg", cfgs2=swap_minmax(cf))
     # positive-domain views
     pos = [{"k": "LnReturn"}, {"k": "Drawdown"}]
